@@ -1,0 +1,23 @@
+//go:build verif
+
+// Machine-checked contracts for govc (see /verif/DESIGN.md). Comments only;
+// compiled only with the build tag "verif".
+
+package cloudblob
+
+// C18: applying the rule sets fetched from one bucket. Ghost logs: sc = slices.Contains calls (one per
+// fetched rule set: "is it new?"), beq = bytes.Equal calls (hash comparison of a known rule set),
+// onc/onu/ond = processor calls.
+//
+// Every fetched rule set is examined (a successful run has made len(ruleSets) membership tests);
+// OnCreated is only called for a rule set that is new, OnUpdated only for a known one whose hash
+// differs, and between two membership tests at most one of them is called; OnDeleted is only called
+// with an empty rule set.
+//@ func (*provider).ruleSetsUpdated
+//@   props C18
+//@   loop 1 invariant sc.n == old(sc.n) + idx + 1 && 0 - 1 <= idx && idx < len(ruleSets) && onc.n + onu.n <= old(onc.n) + old(onu.n) + idx + 1
+//@   ensures ret0 == nil ==> sc.n == old(sc.n) + len(ruleSets)
+//@   ensures onc.n + onu.n <= old(onc.n) + old(onu.n) + len(ruleSets)
+//@   assert at call OnCreated#1: sc.n > old(sc.n) && sc.ret0[sc.n - 1] && sc.arg1[sc.n - 1] == iface(callarg1.MetaData.Source)
+//@   assert at call OnUpdated#1: sc.n > old(sc.n) && !sc.ret0[sc.n - 1] && sc.arg1[sc.n - 1] == iface(callarg1.MetaData.Source) && beq.n > old(beq.n) && !beq.ret0[beq.n - 1] && beq.arg1[beq.n - 1] == callarg1.Hash
+//@   assert at call OnDeleted#1: callarg1 != nil && len(callarg1.Rules) == 0
